@@ -52,6 +52,7 @@ EXPECTED_PROBES = [
     "cached_nxdomain_skipped_candidate",
     "three_or_more_candidates",
     "lookup_in_another_class",
+    "tierB_non_default_ports",
     "chain_length_15",
     "chain_length_16_plus",
     "small_backward_clock_step",
@@ -890,6 +891,9 @@ def _gen_case_b(seed, rng):
         "lifetime": rng.choice([1.5, 3.0]),
         "tcp": rng.random() < 0.15,
         "raise_on_no_answer": True,
+        # where the servers listen: the default port, one resolver-wide port, a port per server
+        # (nameserver_ports), or nameserver objects carrying their own port
+        "ports": rng.choice(["default", "default", "resolver_port", "per_server", "objects"]),
     }
     beh = [[rng.choice(B_BEHAVIOURS) for _ in range(rng.choice([1, 2, 4]))] for _ in range(nserv)]
     return {"prop": PROP, "seed": seed, "tier": "B", "cfg": cfg, "behaviours": beh, "qname": "www.example.", "rdtype": "A"}
@@ -948,9 +952,13 @@ class _BNet:
         self.t0 = VT.now
         self.sockets = []
         self.pending_tcp = {}
+        self.bad_ports = []
 
-    def _server_for(self, dest):
-        return self.servers[int(dest[0].split(".")[-1]) - 1]
+    def _server_for(self, dest, how="udp"):
+        idx = int(dest[0].split(".")[-1]) - 1
+        if dest[1] != _b_port(self.case["cfg"], idx):
+            self.bad_ports.append((how, idx, dest[1]))
+        return self.servers[idx]
 
     # netsim.Network interface
     def udp_for(self, dest):
@@ -1006,7 +1014,7 @@ class _BNet:
         return d
 
     def tcp_for(self, dest):
-        srv = self._server_for(dest)
+        srv = self._server_for(dest, "tcp")
         b = self.pending_tcp.pop(srv.idx, None)
         if b is None:
             b = srv.next()
@@ -1067,6 +1075,15 @@ class _LazyTcp(netsim.TcpScript):
         pass
 
 
+def _b_port(cfg, idx):
+    mode = cfg.get("ports", "default")
+    if mode == "resolver_port":
+        return 5353
+    if mode in ("per_server", "objects"):
+        return 53 if idx == 0 else 5300 + idx
+    return 53
+
+
 def _run_b_world(case, is_async):
     dns = _d
     VT.reset(80000.0)
@@ -1077,6 +1094,15 @@ def _run_b_world(case, is_async):
     cfg = case["cfg"]
     r = dns.asyncresolver.Resolver(configure=False) if is_async else dns.resolver.Resolver(configure=False)
     r.nameservers = [f"10.0.0.{i + 1}" for i in range(cfg["nserv"])]
+    pmode = cfg.get("ports", "default")
+    if pmode == "resolver_port":
+        r.port = 5353
+    elif pmode == "per_server":
+        r.nameserver_ports = {f"10.0.0.{i + 1}": _b_port(cfg, i) for i in range(cfg["nserv"]) if i > 0}
+    elif pmode == "objects":
+        import dns.nameserver
+
+        r.nameservers = [dns.nameserver.Do53Nameserver(f"10.0.0.{i + 1}", _b_port(cfg, i)) for i in range(cfg["nserv"])]
     r.timeout = cfg["timeout"]
     r.lifetime = cfg["lifetime"]
     r.retry_servfail = cfg["retry_servfail"]
@@ -1093,14 +1119,14 @@ def _run_b_world(case, is_async):
                 raise exc
         else:
             ans = r.resolve(case["qname"], case["rdtype"], tcp=cfg["tcp"])
-        result = ("answer", ans.rrset.to_text(), ans.nameserver)
+        result = ("answer", ans.rrset.to_text(), ans.nameserver, ans.port)
     except netsim.SimDeadlock:
         result = ("hang",)
     except dns.exception.DNSException as e:
         result = ("exc", type(e).__name__)
     except Exception as e:  # noqa: BLE001
         result = ("exc!", type(e).__name__, str(e)[:100])
-    return {"trace": trace, "result": result, "end": round(VT.elapsed(), 6)}
+    return {"trace": trace, "result": result, "end": round(VT.elapsed(), 6), "bad_ports": bnet.bad_ports}
 
 
 def _run_b(case, res, log):
@@ -1118,6 +1144,11 @@ def _run_b(case, res, log):
             raise Violation("C16:unexpected-exception", f"{tag}: {o['result']}; trace {o['trace']}")
         if o["end"] > cfg["lifetime"] + 2.0 + 1e-6:
             raise Violation("C16:no-termination", f"{tag}: took {o['end']}s with lifetime {cfg['lifetime']}")
+        if o["bad_ports"]:
+            how, bi, bp = o["bad_ports"][0]
+            raise Violation("C16:wrong-port", f"{tag}: a {how} query for ns{bi} went to port {bp}, the server is configured on port {_b_port(cfg, bi)} ({cfg.get('ports')})")
+        if cfg.get("ports", "default") != "default":
+            res.probes.inc("tierB_non_default_ports")
         # direct invariants on the network trace
         tr = o["trace"]
         removed = set()
@@ -1140,6 +1171,8 @@ def _run_b(case, res, log):
             # the answer must come from a server whose behaviour yields a genuine answer
             ns = o["result"][2]
             idx = int(ns.split(".")[-1]) - 1
+            if o["result"][3] != _b_port(cfg, idx):
+                raise Violation("C16:wrong-port", f"{tag}: the answer reports port {o['result'][3]} for {ns}, configured {_b_port(cfg, idx)}")
             if o["result"][1].split()[-1] != f"10.8.{idx}.1":
                 raise Violation("C16:wrong-answer", f"{tag}: answer {o['result'][1]} is not the genuine reply of {ns} (spoofed or mismatched datagram accepted); trace {tr}")
         res.sim_seconds += o["end"]
